@@ -1,34 +1,28 @@
 (* C10/Run.v — line driver:  "<type> <entry> <hex of the string>"  ->  model verdict, spec verdict *)
 From ZV Require Import Base.Bytes C10.Model C10.Spec.
 
-Definition pick (ty : bytes) : option ((bytes -> bool) * (bytes -> bool)) :=
-  if lbeq ty (B "wk") then Some (validate_well_known, spec_well_known)
-  else if lbeq ty (B "uq") then Some (validate_unique, spec_unique)
-  else if lbeq ty (B "if") then Some (validate_interface, spec_interface)
-  else if lbeq ty (B "er") then Some (validate_error, spec_interface)
-  else if lbeq ty (B "mb") then Some (validate_member, spec_member)
-  else if lbeq ty (B "pr") then Some (validate_property, spec_property)
-  else if lbeq ty (B "bus") then Some (validate_bus, spec_bus)
-  else if lbeq ty (B "op") then Some (validate_object_path, spec_object_path)
-  else if lbeq ty (B "guid") then Some (validate_guid, spec_guid)
+Definition pick (ty : bytes) : option (nty * (bytes -> bool)) :=
+  if lbeq ty (B "wk") then Some (TWellKnown, spec_well_known)
+  else if lbeq ty (B "uq") then Some (TUnique, spec_unique)
+  else if lbeq ty (B "if") then Some (TInterface, spec_interface)
+  else if lbeq ty (B "er") then Some (TError, spec_interface)
+  else if lbeq ty (B "mb") then Some (TMember, spec_member)
+  else if lbeq ty (B "pr") then Some (TProperty, spec_property)
+  else if lbeq ty (B "bus") then Some (TBus, spec_bus)
+  else if lbeq ty (B "op") then Some (TObjectPath, spec_object_path)
+  else if lbeq ty (B "guid") then Some (TGuid, spec_guid)
   else None.
 
-(* Entry points.  Every checked constructor funnels into the one validator, except
-   TryFrom<Value>/TryFrom<OwnedValue> of the six name types whose conversion is produced by
-   #[derive(Value, OwnedValue)] on the newtype: it unwraps the inner string without validating
-   (BusName, ObjectPath and Guid are not affected).  Known finding "value_conv_unvalidated". *)
-Definition derived_value_conv (ty entry : bytes) : bool :=
-  (lbeq entry (B "value") || lbeq entry (B "ovalue")) &&
-  (lbeq ty (B "wk") || lbeq ty (B "uq") || lbeq ty (B "if") || lbeq ty (B "er") || lbeq ty (B "mb") || lbeq ty (B "pr")).
+Definition entry_of (e : bytes) : entry :=
+  if lbeq e (B "value") || lbeq e (B "ovalue") then ViaValue else ViaString.
 
 Definition run_case (line : bytes) : outp :=
   match words line with
-  | ty :: entry :: rest =>
+  | ty :: e :: rest =>
       match pick ty, bytes_of_hex (match rest with h :: _ => h | [] => [] end) with
-      | Some (m, s), Some str =>
-          if derived_value_conv ty entry
-          then {| o_model := bool_tok true; o_spec := bool_tok (s str); o_class := B "value_conv_unvalidated" |}
-          else {| o_model := bool_tok (m str); o_spec := bool_tok (s str); o_class := dash |}
+      | Some (t, s), Some str =>
+          {| o_model := bool_tok (construct t (entry_of e) str); o_spec := bool_tok (s str);
+             o_class := if derived_value_conv t (entry_of e) then B "value_conv_unvalidated" else dash |}
       | _, _ => bad_case
       end
   | _ => bad_case
